@@ -82,6 +82,7 @@ theorem encoder_optimal (cfg : SubCfg) (xs : List Int) (bps : Nat) (log log' : L
     exact ⟨_, hdl, h1, h2⟩
   · obtain ⟨coefs, shift, precision, errors, prc, hmem, hce, hsearch, rfl⟩ := hs
     obtain ⟨hc1, hc32, _⟩ := hlog _ (hsub _ hmem)
+    replace hc32 : coefs.length ≤ 32 := by unfold maxLpcOrder at hc32; omega
     obtain ⟨hel, hef⟩ := computeError_fits coefs shift.toNat xs errors hce
     simp only [SubFrame.count, Option.map_eq_some_iff] at hc
     obtain ⟨c', hc', rfl⟩ := hc
